@@ -280,6 +280,40 @@ def named_ports(style, name):
     return [DESCRIPTORS[6], DESCRIPTORS[1], board]     # a foreign device, an unnamed EBB, the board
 
 
+def prefix_name_lists():
+    """Port names one of which is a proper prefix of another (COM1 / COM12, ttyACM1 /
+    ttyACM10): a lookup by the longer name must not stop at the shorter one."""
+    out = []
+    for short, longer in (("COM1", "COM12"), ("COM1", "COM10"), ("/dev/ttyACM1", "/dev/ttyACM10"),
+                          ("/dev/cu.usbmodem1", "/dev/cu.usbmodem14")):
+        shorts = [(short, "Communications Port (" + short + ")", "ACPI\\PNP0501\\1"),
+                  (short, "EiBotBoard", VIDPID + " LOCATION=1-1"),
+                  (short, "USB Serial Device (" + short + ")", VIDPID + " SER=Uno LOCATION=1-2")]
+        longs = [(longer, "USB Serial Device (" + longer + ")", VIDPID + " LOCATION=1-3"),
+                 (longer, "EiBotBoard,Duo", VIDPID + " SER=Duo LOCATION=1-4"),
+                 (longer, "EiBotBoard", VIDPID)]
+        for first in shorts:
+            for second in longs:
+                out.append([first, second])
+                out.append([second, first])
+                out.append([DESCRIPTORS[6], first, second])
+    return out
+
+
+def _prefix_chunk(lists):
+    part = core.Part()
+    for ports in lists:
+        bad, calls = check_list(ports)
+        part.count("lists")
+        part.count("prefix_name_lists")
+        part.count("nontrivial")
+        part.count("calls", calls)
+        for clause, msg, lookup in bad:
+            part.violation(f"{clause}:prefix:{[p[0] for p in ports]}:{lookup}", msg,
+                           {"kind": "rawports", "ports": [list(p) for p in ports]})
+    return part
+
+
 def _names_chunk(items):
     part = core.Part()
     for style, name in items:
@@ -328,6 +362,7 @@ def run(ctx):
     part = core.fan_out(ctx, _chunk, jobs)
     part.merge(core.fan_out(ctx, _reuse_chunk, core.split(short_lists(), 32)))
     part.merge(core.fan_out(ctx, _names_chunk, core.split(name_alphabet_lists(), 16)))
+    part.merge(core.fan_out(ctx, _prefix_chunk, core.split(prefix_name_lists(), 8)))
     for clause, msg, _l in check_raising():
         part.violation(clause, msg, {"kind": "raising"})
     # long enumerations: every descriptor in turn preceded by 30 foreign ports and followed by
@@ -360,7 +395,7 @@ def run(ctx):
         "rule": f"all ordered port lists of length 0..{max_len} over {len(DESCRIPTORS)} descriptor kinds (named / "
                 "unnamed EBB, Windows SER=/SNR= styles, VID:PID-only, foreign devices, a name "
                 "that prefixes another, names and tags containing a blank) x every lookup derived from the list (reported names, "
-                "serial tags, port names; original/upper/lower case), both layers; every letter, digit and five marks as the first / last / only character of a name held in the description, the SER= tag or the SNR= tag; all ordered pairs "
+                "serial tags, port names; original/upper/lower case), both layers; every letter, digit and five marks as the first / last / only character of a name held in the description, the SER= tag or the SNR= tag; 108 lists with port names that are prefixes of one another (COM1 / COM12); all ordered pairs "
                 "of lists of length 0..2 discovered one after the other by the same EBB3 object; 16 "
                 "enumerations of 46 ports; "
                 "non-trivial = "
@@ -380,6 +415,8 @@ def replay(case):
         return check_reuse(tuple(case["first"]), tuple(case["second"]))
     if case["kind"] == "raising":
         return [m for _c, m, _l in check_raising()]
+    if case["kind"] == "rawports":
+        return [m for _c, m, _l in check_list([tuple(p) for p in case["ports"]])[0]]
     if case["kind"] == "named":
         return [m for _c, m, _l in check_list(named_ports(case["style"], case["name"]))[0]]
     ports = [DESCRIPTORS[k] for k in case["combo"]]
